@@ -1,10 +1,10 @@
 #!/bin/bash
-# usage: verify_seed.sh <property id> <k> <agent worktree>
+# usage: verify_seed.sh <property id> <k> <agent worktree> [offset]   (stored as seeded/<id>-<k+offset>)
 # Re-checks an independently produced seeded change in a scratch worktree of /repo (outside /repo and /verif):
 #   suite passes with the change; demo fails with the change; demo passes without it.
 # On success stores it as /verif/seeded/<id>-<k>/{patch.diff,demo.rs,meta.json}.
 set -u
-id=$1; k=$2; src=$3
+id=$1; k=$2; src=$3; off=${4:-0}; kk=$((k+off))
 W=/tmp/vseed-wt
 export CARGO_NET_OFFLINE=true CARGO_TARGET_DIR=/tmp/vseed-target
 if [ ! -d $W ]; then git -C /repo worktree add --detach $W HEAD >/dev/null 2>&1 || exit 2; fi
@@ -17,22 +17,22 @@ cargo test --offline --test demo >/tmp/vseed-demo-with.log 2>&1; with=$?
 git checkout -- src Cargo.toml
 cargo test --offline --test demo >/tmp/vseed-demo-without.log 2>&1; without=$?
 rm -rf tests
-echo "$id-$k: suite_with_change=[$suite] demo_with_change_rc=$with demo_without_rc=$without"
+echo "$id-$kk: suite_with_change=[$suite] demo_with_change_rc=$with demo_without_rc=$without"
 if [[ "$suite" == *" 0 failed" && $with -ne 0 && $without -eq 0 ]]; then
-  d=/verif/seeded/$id-$k; mkdir -p $d
+  d=/verif/seeded/$id-$kk; mkdir -p $d
   cp $src/OUT/patch_$k.diff $d/patch.diff; cp $src/OUT/demo_$k.rs $d/demo.rs
   python3 - "$id" "$k" "$src" "$suite" "$d" <<'PY'
 import json,sys
 pid,k,src,suite,d=sys.argv[1:]
 meta=open(f"{src}/OUT/meta_{k}.txt").read()
-json.dump({"property":pid,"source":"independent sub-agent given only the property text and a scratch worktree",
+json.dump({"property":pid,"source":"independent sub-agent given only the property text and a scratch worktree" + (" (second round: asked for less obvious locations)" if int(k)>0 and "wt2" in src else ""),
  "needs_to_manifest":meta.strip(),
  "verified":{"suite_with_change":suite,"demo_with_change":"fails","demo_without_change":"passes",
    "how":"tools/verify_seed.sh in a scratch worktree of /repo (cargo test --workspace --no-fail-fast --offline; cargo test --test demo)",
    "base_commit":__import__('subprocess').run(['git','-C','/repo','rev-parse','--short','HEAD'],capture_output=True,text=True).stdout.strip()},
  "detected_by":{}}, open(f"{d}/meta.json","w"), indent=1)
 PY
-  echo "$id-$k: KEPT"
+  echo "$id-$kk: KEPT"
 else
-  echo "$id-$k: REJECTED"; tail -5 /tmp/vseed-demo-with.log
+  echo "$id-$kk: REJECTED"; tail -5 /tmp/vseed-demo-with.log
 fi
